@@ -215,8 +215,21 @@ void c15_gen(hv::rng &r, const std::string &tier)
             const auto &A = alpha ? ALPHA_KEYS : ALPHA_BYTES;
             for (size_t a = 0; a < A.size(); a++)
                 for (size_t b = 0; b < A.size(); b++)
+                {
+                    // (round 3b: the deepest trees of the thorough tier - 4 levels below a 2-token prefix, 54 240
+                    //  sessions and 0.7 - 0.9 s CPU per op - ran into the 3 s per-op CPU limit when 8 seeds run in
+                    //  parallel on a busy machine.  The same tree is now cut into 15 (11) ops with a 3-token prefix
+                    //  and 3 levels: the same set of key sequences, every node still digested)
+                    if (L >= 4)
+                    {
+                        for (size_t d = 0; d < A.size(); d++)
+                            emit(std::string("vtx ") + VAR[var] + " " + std::to_string(c.cap) + " " + std::to_string(c.depth) + " " + std::to_string(alpha) + " " +
+                                 std::to_string(L - 1) + " " + hx(A[a] + A[b] + A[d]));
+                        continue;
+                    }
                     emit(std::string("vtx ") + VAR[var] + " " + std::to_string(c.cap) + " " + std::to_string(c.depth) + " " + std::to_string(alpha) + " " +
                          std::to_string(third && a % 3 != gen_seed % 3 ? L - 1 : L) + " " + hx(A[a] + A[b]));
+                }
         };
         // 15-byte alphabet: every sequence up to length 4 in all 8 configurations, up to 5 (thorough 6) in one
         for (unsigned i = 0; i < 8; i++)
